@@ -24,7 +24,7 @@ RULE = (
     "mixed 1e-8..1e3; constant / stepwise / random-walk schedules). Non-trivial = at least 3 rows "
     "with a significant Laplacian constrain the mesh constant; distinct = descriptor hash."
 )
-MIN_NONTRIVIAL = {"quick": 120, "thorough": 3000}
+MIN_NONTRIVIAL = {"quick": 120, "thorough": 9000}
 SHARDS = {"quick": 4, "thorough": 16}
 GENERATOR = {"nx": [3, 4, 5, 10, 30, 80, 200, 400], "nt": "2..300", "t_end": "1e-3..30 (scaled time)", "p_f/p_i": [0.01, 0.1, 0.3, 0.5, 0.7, 0.9, 0.99, 0.999, 1.0, "random"]}
 ASSUMPTIONS = [
@@ -40,7 +40,7 @@ def setup(ck):
 
 def generate(ck):
     rng = ck.rng
-    n = 170 if ck.tier == "quick" else 4200
+    n = 170 if ck.tier == "quick" else 12000
     descs = [
         {"cls": "ideal", "nx": 30, "p_i": 8000.0, "p_f": 100.0, "grid": {"family": "quadratic", "nt": 200, "t_end": 9.0, "seed": 0}},
         {"cls": "single", "nx": 30, "table": {"kind": "shipped", "name": "pvt_gas"}, "p_i": 8000.0, "p_f": 7900.0, "alpha_branch": False, "schedule": None, "grid": {"family": "sorted-random", "nt": 60, "t_end": 3.0, "seed": 1}},
